@@ -89,13 +89,11 @@ def run(ck):
         # --- colour: styled iff stderr is a terminal, NO_COLOR is unset and no guard is alive
         cdist = {}
         for tty in (False, True):
-            for nocolor in (False, True):
-                for guard in (0, 1, 2, 3):
+            # NO_COLOR: unset, "1", and set to the empty string / to "0" (set is set: the variable's value plays no part)
+            for nocolor in (False, True, "", "0"):
+                for guard in ((0, 1, 2, 3) if nocolor in (False, True) else (0,)):
                     r = req.replace(" 1 %s 2 " % hexs(src), " %d %s 2 " % (guard, hexs(src)), 1)
-                    env = {"NO_COLOR": "1"} if nocolor else {}
-                    e2 = dict(env)
-                    if not nocolor:
-                        e2["__unset"] = "NO_COLOR"
+                    env = {} if nocolor is False else {"NO_COLOR": "1" if nocolor is True else nocolor}
                     envp = {k: v for k, v in ENV.items() if k != "NO_COLOR"}
                     envp.update(env)
                     o = run_with_tty(exe, r, tty, envp)
@@ -103,12 +101,12 @@ def run(ck):
                     text = unhexs(f.get("out", "-")) if f.get("out") else ""
                     styled = "\x1b[" in text
                     guard_alive = guard in (1, 2)
-                    want = tty and not nocolor and not guard_alive
-                    cdist["tty=%d NO_COLOR=%d guard=%d styled=%d" % (tty, nocolor, guard, styled)] = 1
+                    want = tty and nocolor is False and not guard_alive
+                    cdist["tty=%d NO_COLOR=%s guard=%d styled=%d" % (tty, {False: "unset", True: "1"}.get(nocolor, repr(nocolor)), guard, styled)] = 1
                     if styled != want:
-                        key = "colour:nested-guard" if guard == 2 else "colour:tty=%d:nocolor=%d:guard=%d" % (tty, nocolor, guard)
+                        key = "colour:nested-guard" if guard == 2 else "colour:tty=%d:nocolor=%s:guard=%d" % (tty, nocolor, guard)
                         ck.report(key, "colour escapes %s although stderr %s a terminal, NO_COLOR is %s and %s" % (
-                            "appear" if styled else "are missing", "is" if tty else "is not", "set" if nocolor else "unset",
+                            "appear" if styled else "are missing", "is" if tty else "is not", "unset" if nocolor is False else "set (to %r)" % ("1" if nocolor is True else nocolor),
                             {0: "no guard exists", 1: "a plain-output guard is alive", 2: "an outer plain-output guard is alive (an inner one was dropped)", 3: "a guard was created and dropped before"}[guard]),
                                   dict(tty=tty, NO_COLOR=nocolor, guard_scenario=guard, styled=styled, expected_styled=want, output=text[:300]))
         # colour must follow the environment at the time of each failure, whatever failed before
@@ -132,7 +130,7 @@ def run(ck):
                     ck.report("colour:history:%s" % name, "the colour decision of a report depends on earlier reports in the process (step %d of the sequence: %s)" % (step, "styled" if styled else "plain"),
                               dict(sequence=name, step=step, styled=styled, expected_styled=want, requests=[l[:60] for l in lines]))
         ck.corr_record("T5 colour matrix (child processes with stderr on a pty / a pipe x NO_COLOR x {no guard, guard alive, outer guard alive + inner dropped, guard dropped}): styled iff terminal, NO_COLOR unset and no live guard",
-                       16, 16, 0, cdist, samples=[dict(tty=True, NO_COLOR=False, guard=2)], exhaustive=True, rule="the full 2 x 2 x 4 matrix; all distinct")
+                       len(cdist), len(cdist), 0, cdist, samples=[dict(tty=True, NO_COLOR=False, guard=2)], exhaustive=True, rule="the full 2 x 2 x 4 matrix plus NO_COLOR set to the empty string and to 0; all distinct")
     finally:
         shutil.rmtree(scratch, ignore_errors=True)
     schedreplay.run(ck)
